@@ -373,25 +373,25 @@ class MultiProblem(object):
             probs.append(p)
         return cls(probs, d.get('label', 'multi'))
 
+    def census(self, parent):
+        """cells under the parent in each file's statistics"""
+        base = self.probs[0]
+        anc = base.leaf_ancestors()
+        if parent is None:
+            under = list(base.leaves)
+        else:
+            under = [l for l in base.leaves
+                     if anc[l][parent[0]] == parent[1]]
+        return [sum(p.leaf_n[l] for l in under) for p in self.probs]
+
     def assignment(self):
         """parent -> index of the file it is selected on: the file with the
         most cells under the parent, the first such file on a tie
         (independent of the repo)"""
-        base = self.probs[0]
-        anc = base.leaf_ancestors()
         out = {}
-        for parent in base.all_parents():
-            if parent is None:
-                under = list(base.leaves)
-            else:
-                under = [l for l in base.leaves
-                         if anc[l][parent[0]] == parent[1]]
-            best, best_n = None, None
-            for fi, p in enumerate(self.probs):
-                n = sum(p.leaf_n[l] for l in under)
-                if best is None or n > best_n:
-                    best, best_n = fi, n
-            out[parent] = best
+        for parent in self.probs[0].all_parents():
+            c = self.census(parent)
+            out[parent] = c.index(max(c))
         return out
 
 
